@@ -122,3 +122,13 @@ Proof.
   induction bases as [|b r IH]; intro used; cbn [alloc_names]; [eauto|].
   destruct (unique_name_total b used) as [n ->]. destruct (IH (n :: used)) as [ns ->]. eauto.
 Qed.
+
+(* the declarations of a table are always computed: neither the FK-chain walk (visited set) nor the name loop can
+   exhaust its fuel; the only failure left is the index panic on an FK without columns, which the loader rejects *)
+Theorem members_never_diverge s t : members s t <> Err XDiverge.
+Proof.
+  unfold members, members_fuel, relation_members, rbind.
+  destruct (relation_infos (resolve_fuel s) s t) as [infos|e] eqn:RI.
+  - destruct (alloc_names_total (map ri_field_base infos) []) as [ns ->]. discriminate.
+  - intro H. injection H as ->. exact (relation_infos_no_diverge s t RI).
+Qed.
